@@ -343,7 +343,7 @@ class SupervisoryEnhancedControlField(EnhancedControlField):
             supervision_function=(data[0] >> 2) & 0b11,
             poll=(data[0] >> 4) & 0b1,
             final=(data[0] >> 7) & 0b1,
-            req_seq=(data[1] & 0b1111111),
+            req_seq=(data[1] & 0b111111),
         )
 
     def __bytes__(self) -> bytes:
@@ -352,7 +352,7 @@ class SupervisoryEnhancedControlField(EnhancedControlField):
                 (
                     self.frame_type
                     | (self.supervision_function << 2)
-                    | self.poll << 7
+                    | (self.poll << 4)
                     | (self.final << 7)
                 ),
                 self.req_seq,
